@@ -149,6 +149,8 @@ Qed.
 
 Section WithBeh.
   Variable beh : nat -> fbeh.
+  (** second guard: f never does stop() + start() itself (known finding restart-inside-call) *)
+  Hypothesis no_restart : forall k, beh k <> FRestartRet.
   Variable with_count : bool.
 
   Lemma run_f_mid : forall s, Core s -> mid s -> Inv (run_f beh s).
@@ -161,7 +163,7 @@ Section WithBeh.
     { unfold s1. apply Core_emit; [cbn; unfold has_waiting; rewrite M4; reflexivity | reflexivity|].
       eapply Core_same; [| | | | |exact H]; reflexivity. }
     assert (Hm : mid s1) by (unfold mid, s1; cbn; repeat split; eauto).
-    destruct (beh (ncalls s)).
+    destruct (beh (ncalls s)) eqn:Eb; [| | | | | |exfalso; exact (no_restart _ Eb)].
     - apply cb_running; assumption.
     - apply (eb_any s1 g); auto.
     - split; [eapply Core_same; [| | | | |exact HC]; reflexivity|].
@@ -213,9 +215,7 @@ Section WithBeh.
       apply orb_false_iff in E. destruct E as [Er Ei]. apply Z.ltb_ge in Ei.
       destruct Hp as [Hp|[Hp|Hp]].
       + destruct Hp as [P1 [P2 [P3 [P4 P5]]]].
-        set (s1 := mkSt (now s) true (now s) i b true (pend s) (nextid s) (call s) (waiting s) (S (dgen s))
-                        (Some (dgen s)) (dfired s) (realLast s) (ncalls s) (wasreset s || started s)
-                        (EEpoch (lastidx_at (now s) i b (realLast s)) :: log s)).
+        set (s1 := begin_loop i b s).
         assert (HC1 : Core s1).
         { destruct HC as [H1 [D1 D2 D3 D4 D5] H3]. split; cbn; auto; [|constructor; [exact I | exact H3]].
           split; cbn; auto.
@@ -410,12 +410,10 @@ Record CI (s : st) : Prop := mkCI {
   ci_law : started s = true -> 0 < interval s ->
            esum (log s) = lastidx s - ebase (log s)
            /\ (forall id t, In (id, t) (pend s) -> lastidx s < (t - start s) / interval s);
-  ci_ok : (dgen s <= 1)%nat -> Forall count_ok (log s);
+  ci_ok : Forall count_ok (log s);
   ci_first : wasreset s = false -> started s = true ->
-             ebase (log s) = (if runAtStart s then -1 else 0) /\ csum (log s) = esum (log s)
-             /\ (forall l, realLast s = Some l -> start s <= l);
-  ci_ns : started s = false -> realLast s = None /\ dgen s = 0%nat /\ csum (log s) = 0;
-  ci_gen : started s = true -> (1 <= dgen s)%nat
+             ebase (log s) = (if runAtStart s then -1 else 0) /\ (forall l, realLast s = Some l -> start s <= l);
+  ci_ns : started s = false -> realLast s = None
 }.
 
 Lemma CI_frame : forall s s',
@@ -424,7 +422,7 @@ Lemma CI_frame : forall s s',
   (forall x, In x (pend s') -> In x (pend s)) ->
   CI s -> CI s'.
 Proof.
-  intros s s' E1 E2 E3 E4 E5 E6 E7 E8 E9 Hsub [A B C D E F G].
+  intros s s' E1 E2 E3 E4 E5 E6 E7 E8 E9 Hsub [A B C D E F].
   split; unfold lastidx in *; rewrite ?E1, ?E2, ?E3, ?E4, ?E5, ?E6, ?E7, ?E8, ?E9; auto.
   intros Hs Hi. destruct (C Hs Hi) as [C1 C2]. split; [exact C1|].
   intros id t Hin. apply (C2 id t). apply Hsub. exact Hin.
@@ -432,7 +430,7 @@ Qed.
 
 Lemma CI_emit : forall e s, quiet e = true -> count_ok e -> CI s -> CI (emit e s).
 Proof.
-  intros e s Hq Hok [A B C D E F G]. destruct (quiet_cons e (log s) Hq) as [Q1 [Q2 Q3]].
+  intros e s Hq Hok [A B C D E F]. destruct (quiet_cons e (log s) Hq) as [Q1 [Q2 Q3]].
   split; unfold lastidx in *; sst; rewrite ?Q1, ?Q2, ?Q3; auto.
 Qed.
 
@@ -472,7 +470,7 @@ Qed.
 Lemma CI_schedule : forall s, started s = true -> CI s -> CI (schedule (now s) s).
 Proof.
   intros s Hst H. unfold schedule. apply CI_emit; [reflexivity | exact I|].
-  destruct H as [A B C D E F G]. split; unfold lastidx in *; sst; auto.
+  destruct H as [A B C D E F]. split; unfold lastidx in *; sst; auto.
   intros _ Hi. destruct (C Hst Hi) as [C1 C2]. split; [exact C1|].
   intros id t Hin. apply insert_call_in in Hin. destruct Hin as [Hin|Hin]; [|apply (C2 id t); exact Hin].
   inversion Hin; subst.
@@ -490,7 +488,7 @@ Proof.
   assert (Hq : quiet e = true) by (unfold e; destruct (existsb _ _); reflexivity).
   assert (Hok : count_ok e) by (unfold e; destruct (existsb _ _); exact I).
   destruct (quiet_cons e (log s) Hq) as [Q1 [Q2 Q3]].
-  destruct H as [A B C D E F G]. split; unfold lastidx in *; sst; rewrite ?Q1, ?Q2, ?Q3; auto.
+  destruct H as [A B C D E F]. split; unfold lastidx in *; sst; rewrite ?Q1, ?Q2, ?Q3; auto.
 Qed.
 
 Lemma CI_cb : forall s, started s = true -> CI s -> CI (cb s).
@@ -517,11 +515,13 @@ Proof.
   destruct (call s) as [i|] eqn:Ec; [|exact H].
   apply (CI_schedule (set_epoch (now s) (set_clock (remove_call i (pend s)) (nextid s) None s))); [exact Hst|].
   specialize (Hone i eq_refl).
-  destruct H as [A B C D E F G]. split; unfold lastidx in *; sst; auto.
+  destruct H as [A B C D E F]. apply mkCI; unfold lastidx in *; sst.
+  - exact A.
   - intros _. lia.
   - intros _ Hi. cbn [esum ebase]. split; [lia|]. rewrite Hone. intros id t [].
-  - intros Hd. constructor; [exact I | auto].
+  - constructor; [exact I | exact D].
   - intros; discriminate.
+  - intros Hs. congruence.
 Qed.
 
 Lemma do_stop_frame : forall s, interval (do_stop s) = interval s /\ started (do_stop s) = started s.
@@ -535,6 +535,7 @@ Proof. intros s. unfold do_reset. destruct (running s); [destruct (call s)|]; re
 
 Section Counts.
   Variable beh : nat -> fbeh.
+  Hypothesis no_restart : forall k, beh k <> FRestartRet.
 
   (** f is called from inside __call__ (self.call is None there) *)
   Lemma CI_run_f : forall s, started s = true -> call s = None -> CI s -> CI (run_f beh s).
@@ -546,7 +547,7 @@ Section Counts.
       eapply CI_frame; [| | | | | | | | | |exact H]; try reflexivity. auto. }
     assert (Hst1 : started s1 = true) by exact Hst.
     assert (Hc1 : call s1 = None) by exact Hc.
-    destruct (beh (ncalls s)).
+    destruct (beh (ncalls s)) eqn:Eb; [| | | | | |exfalso; exact (no_restart _ Eb)].
     - apply CI_cb; assumption.
     - apply CI_eb; assumption.
     - eapply CI_frame; [| | | | | | | | | |exact H1]; try reflexivity. auto.
@@ -557,16 +558,16 @@ Section Counts.
       apply CI_do_reset; [exact Hst1 | rewrite Hc1; intros i Hi; discriminate | exact H1].
   Qed.
 
-  (** __call__, when nothing else is pending *)
+  (** __call__, when nothing else is pending and a boundary has been passed since the last counted call
+      (or this is the immediate first call) *)
   Lemma CI_invoke : forall wc s, 0 <= interval s -> started s = true -> pend s = [] -> CI s ->
-    ((dgen s <= 1)%nat -> 0 < interval s -> lastidx s < (now s - start s) / interval s) ->
+    (0 < interval s -> lastidx s < (now s - start s) / interval s) ->
     CI (invoke beh wc s).
   Proof.
     intros wc s Hi0 Hst Hp H Hdue. unfold invoke.
     set (s1 := set_clock (pend s) (nextid s) None s).
     assert (H1 : CI s1) by (eapply CI_frame; [| | | | | | | | | |exact H]; try reflexivity; auto).
-    destruct H as [A B C D E F G]. pose proof (B Hst) as Hn.
-    (* CI of the state in which the counter has just recorded a count n >= 1 at [now] *)
+    destruct H as [A B C D E F]. pose proof (B Hst) as Hn.
     assert (Hcounted : forall n, 1 <= n ->
               (0 < interval s -> n = (now s - start s) / interval s - lastidx s) ->
               CI (emit (ECount n) (set_last (now s1) s1))).
@@ -576,18 +577,16 @@ Section Counts.
       - intros _ Hi. cbn [esum ebase lastidx_at]. rewrite Hp. destruct (C Hst Hi) as [C1 _].
         rewrite (Z.quot_div_nonneg (now s - start s) (interval s)) by lia.
         specialize (Hlaw Hi). split; [lia|]. intros id t [].
-      - intros Hd. constructor; [exact Hn1 | auto].
-      - intros Hw Hs. destruct (E Hw Hs) as [E1 [E2 E3]]. cbn [ebase]. rewrite csum_count. cbn [esum].
-        split; [exact E1|]. split; [lia|]. intros l Hl. inversion Hl; subst. exact Hn.
-      - intros Hs. congruence.
-      - exact G. }
+      - constructor; [exact Hn1 | exact D].
+      - intros Hw Hs. destruct (E Hw Hs) as [E1 E3]. cbn [ebase].
+        split; [exact E1|]. intros l Hl. inversion Hl; subst. exact Hn.
+      - intros Hs. congruence. }
     destruct (wc && (interval s1 =? 0))%bool eqn:Ez.
     { apply andb_true_iff in Ez. destruct Ez as [_ Ez]. apply Z.eqb_eq in Ez. cbn in Ez.
       apply CI_run_f; [exact Hst | reflexivity|]. apply Hcounted; [lia | intros Hi; lia]. }
     destruct wc; [|apply CI_run_f; [exact Hst | reflexivity | exact H1]].
     cbn [andb] in Ez. apply Z.eqb_neq in Ez. cbn in Ez.
     assert (Hi : 0 < interval s) by lia.
-    (* the count computed by the code is (now - start)/i - lastidx *)
     assert (Ecount : interval_of s1 (now s1)
                      - interval_of s1 (match realLast s1 with
                                        | Some l => l
@@ -601,24 +600,17 @@ Section Counts.
       + replace (start s - interval s - start s) with (- interval s) by lia.
         rewrite Z.quot_opp_l by lia. rewrite Z.quot_same by lia. reflexivity.
       + replace (start s - start s) with 0 by lia. rewrite Z.quot_0_l by lia. reflexivity. }
-    rewrite Ecount.
+    rewrite Ecount. specialize (Hdue Hi).
     destruct (0 <? (now s - start s) / interval s - lastidx s) eqn:Ec.
     - apply Z.ltb_lt in Ec. apply CI_run_f; [exact Hst | reflexivity|]. apply Hcounted; [lia | auto].
-    - apply Z.ltb_ge in Ec. apply CI_cb; [exact Hst|].
-      destruct (quiet_cons ESkip (log s) eq_refl) as [Q1 [Q2 Q3]].
-      apply mkCI; unfold lastidx in *; subst s1; sst; rewrite ?Q1, ?Q2, ?Q3.
-      + exact A.
-      + exact B.
-      + intros Hs Hi'. rewrite Hp. destruct (C Hs Hi') as [C1 _]. split; [exact C1|]. intros id t [].
-      + intros Hd. exfalso. specialize (Hdue Hd Hi). lia.
-      + exact E.
-      + exact F.
-      + exact G.
+    - (* count <= 0 cannot happen: a boundary has been passed *)
+      apply Z.ltb_ge in Ec. exfalso. lia.
   Qed.
 End Counts.
 
 Section Counts2.
   Variable beh : nat -> fbeh.
+  Hypothesis no_restart : forall k, beh k <> FRestartRet.
 
   Definition nonneg_adv (o : op) : Prop := match o with Advance a => 0 <= a | _ => True end.
 
@@ -631,7 +623,7 @@ Section Counts2.
   Proof. intros. unfold eb. rewrite started_fire. reflexivity. Qed.
   Lemma started_run_f : forall x, started (run_f beh x) = started x.
   Proof.
-    intros. unfold run_f. destruct (beh (ncalls x)); cbn.
+    intros. unfold run_f. destruct (beh (ncalls x)) eqn:Eb; cbn; [| | | | | |exfalso; exact (no_restart _ Eb)].
     - rewrite started_cb. reflexivity.
     - rewrite started_eb. reflexivity.
     - reflexivity.
@@ -691,33 +683,25 @@ Section Counts2.
         - destruct Hp as [_ [P2 _]]. exact P2.
         - destruct Hp as [id [t [g [P1 _]]]]. congruence.
         - destruct Hp as [w [g [P2 _]]]. exact P2. }
-      set (s1 := mkSt (now s) true (now s) i b true (pend s) (nextid s) (call s) (waiting s) (S (dgen s))
-                      (Some (dgen s)) (dfired s) (realLast s) (ncalls s) (wasreset s || started s)
-                      (EEpoch (lastidx_at (now s) i b (realLast s)) :: log s)).
-      destruct H as [A B C D E F G].
-      assert (Hfresh : (dgen s = 0)%nat -> started s = false).
-      { intros Hd. destruct (started s) eqn:Es; [|reflexivity]. specialize (G eq_refl). lia. }
+      set (s1 := begin_loop i b s).
+      destruct H as [A B C D E F].
       assert (H1 : CI s1).
-      { apply mkCI; unfold lastidx, s1; sst.
-        - exact A.
+      { apply mkCI; unfold lastidx, s1, begin_loop; sst.
+        - intros l Hl. discriminate.
         - intros _. lia.
         - intros _ Hi. cbn [esum ebase]. rewrite Hidle. split; [lia|]. intros id t [].
-        - intros Hd. constructor; [exact I|]. apply D. lia.
-        - intros Hw _. apply orb_false_iff in Hw. destruct Hw as [Hw Hs0].
-          destruct (F Hs0) as [F1 [F2 F3]]. rewrite F1. cbn [ebase esum lastidx_at].
-          split; [reflexivity|]. split; [exact F3|]. intros l Hl. discriminate.
-        - intros; discriminate.
-        - intros _. lia. }
+        - constructor; [exact I | exact D].
+        - intros _ _. cbn [ebase lastidx_at]. split; [reflexivity|]. intros l Hl. discriminate.
+        - intros; discriminate. }
       destruct b.
       + apply CI_invoke; auto.
-        intros Hd Hi. unfold s1 in Hd, Hi. cbn in Hd, Hi. assert (Hs0 : started s = false) by (apply Hfresh; lia).
-        destruct (F Hs0) as [F1 _]. unfold lastidx, lastidx_at. cbn. rewrite F1.
-        replace (now s - now s) with 0 by lia. rewrite Z.div_0_l by lia. lia.
+        intros Hi. unfold lastidx, lastidx_at, s1, begin_loop. cbn.
+        replace (now s - now s) with 0 by lia. unfold s1, begin_loop in Hi. cbn in Hi. rewrite Z.div_0_l by lia. lia.
       + apply (CI_schedule s1); [reflexivity | exact H1].
     - (* advance *)
       unfold fire_due. cbn [set_now now pend]. cbn in Hnn.
       assert (H1 : CI (set_now (now s + a) s)).
-      { destruct H as [A B C D E F G]. apply mkCI; unfold lastidx in *; sst; auto.
+      { destruct H as [A B C D E F]. apply mkCI; unfold lastidx in *; sst; auto.
         - intros l Hl. specialize (A l Hl). lia.
         - intros Hs. specialize (B Hs). lia. }
       destruct Hp as [Hp|[Hp|Hp]].
@@ -729,7 +713,7 @@ Section Counts2.
         apply CI_invoke; cbn; auto.
         * rewrite P2. cbn. rewrite Nat.eqb_refl. reflexivity.
         * eapply CI_frame; [| | | | | | | | | |exact H1]; try reflexivity. cbn. intros x Hx. eapply remove_call_sub. exact Hx.
-        * intros _ Hi. destruct H as [A B C D E F G]. destruct (C Hst Hi) as [_ C2]. specialize (B Hst).
+        * intros Hi. destruct H as [A B C D E F]. destruct (C Hst Hi) as [_ C2]. specialize (B Hst).
           unfold lastidx in *. cbn.
           assert (Hc : lastidx_at (start s) (interval s) (runAtStart s) (realLast s) < (t - start s) / interval s)
             by (apply (C2 id t); rewrite P2; left; reflexivity).
@@ -785,28 +769,26 @@ Section Counts2.
     started s = true -> 0 < interval s -> esum (log s) = lastidx s - ebase (log s).
   Proof. intros wc ops Hok Hnn s Hs Hi. apply (ci_law _ (reach_CI wc ops Hok Hnn) Hs Hi). Qed.
 
-  (** as long as start() was called at most once, countCallable is never skipped and every count is >= 1
-      (reset() included) *)
+  (** countCallable is never skipped and every count is >= 1 (restart and reset() included) *)
   Lemma reach_counts_ok : forall wc ops, run_ok beh wc init ops -> Forall nonneg_adv ops ->
-    let s := run beh wc init ops in (dgen s <= 1)%nat -> Forall count_ok (log s).
-  Proof. intros wc ops Hok Hnn s Hd. apply (ci_ok _ (reach_CI wc ops Hok Hnn) Hd). Qed.
+    Forall count_ok (log (run beh wc init ops)).
+  Proof. intros wc ops Hok Hnn. apply (ci_ok _ (reach_CI wc ops Hok Hnn)). Qed.
 
-  (** the simple form: no reset(), one start() *)
+  (** the simple form: no reset() since the last start(): the counts passed since that start() sum to the
+      boundaries start + j*interval up to the last call *)
   Lemma reach_counts : forall wc ops, run_ok beh wc init ops -> Forall nonneg_adv ops ->
     let s := run beh wc init ops in
-    wasreset s = false -> 0 < interval s ->
-    csum (log s) = match realLast s with
+    started s = true -> wasreset s = false -> 0 < interval s ->
+    esum (log s) = match realLast s with
                    | Some l => (l - start s) / interval s + (if runAtStart s then 1 else 0)
                    | None => 0
                    end.
   Proof.
-    intros wc ops Hok Hnn s Hw Hi. pose proof (reach_CI wc ops Hok Hnn) as H. fold s in H.
-    destruct (started s) eqn:Es.
-    - destruct (ci_first _ H Hw Es) as [E1 [E2 E3]]. destruct (ci_law _ H Es Hi) as [L _].
-      rewrite E2, L, E1. unfold lastidx, lastidx_at. destruct (realLast s) as [l|] eqn:El.
-      + specialize (E3 l eq_refl). rewrite Z.quot_div_nonneg by lia. destruct (runAtStart s); lia.
-      + destruct (runAtStart s); lia.
-    - destruct (ci_ns _ H Es) as [N1 [_ N3]]. rewrite N1, N3. reflexivity.
+    intros wc ops Hok Hnn s Es Hw Hi. pose proof (reach_CI wc ops Hok Hnn) as H. fold s in H.
+    destruct (ci_first _ H Hw Es) as [E1 E3]. destruct (ci_law _ H Es Hi) as [L _].
+    rewrite L, E1. unfold lastidx, lastidx_at. destruct (realLast s) as [l|] eqn:El.
+    - specialize (E3 l eq_refl). rewrite Z.quot_div_nonneg by lia. destruct (runAtStart s); lia.
+    - destruct (runAtStart s); lia.
   Qed.
 
   (** ---- the first tick of a now=False loop, and "one call per advance" ---- *)
@@ -815,6 +797,7 @@ Section Counts2.
     pend (step beh wc s (Start i false)) = [(nextid s, now s + i)]
     /\ ncalls (step beh wc s (Start i false)) = ncalls s.
   Proof.
+    clear no_restart.
     intros wc s i [P1 [P2 _]] Hi. cbn [step]. rewrite P1. cbn [orb].
     replace (i <? 0) with false by (symmetry; apply Z.ltb_ge; lia).
     unfold schedule. cbn. rewrite P2. cbn.
@@ -827,6 +810,7 @@ Section Counts2.
   Lemma advance_before_due : forall wc s id t a, pend s = [(id, t)] -> now s + a < t ->
     step beh wc s (Advance a) = set_now (now s + a) s.
   Proof.
+    clear no_restart.
     intros wc s id t a P2 Hlt. cbn [step]. unfold fire_due. cbn [set_now now pend]. rewrite P2. cbn [due_prefix snd].
     replace (t <=? now s + a) with false by (symmetry; apply Z.leb_gt; lia). reflexivity.
   Qed.
@@ -834,6 +818,7 @@ Section Counts2.
   Lemma advance_when_due : forall wc s id t a, pend s = [(id, t)] -> t <= now s + a ->
     step beh wc s (Advance a) = invoke beh wc (set_clock [] (nextid s) (call s) (set_now (now s + a) s)).
   Proof.
+    clear no_restart.
     intros wc s id t a P2 Hle. cbn [step]. unfold fire_due. cbn [set_now now pend]. rewrite P2. cbn [due_prefix snd].
     replace (t <=? now s + a) with true by (symmetry; apply Z.leb_le; lia).
     cbn [fold_left fst pend nextid call set_now]. rewrite P2. cbn. rewrite Nat.eqb_refl. reflexivity.
@@ -854,7 +839,7 @@ Section Counts2.
   Proof. intros. unfold do_reset. destruct (running x); [destruct (call x)|]; reflexivity. Qed.
   Lemma ncalls_run_f : forall x, ncalls (run_f beh x) = S (ncalls x).
   Proof.
-    intros. unfold run_f. destruct (beh (ncalls x)); cbn.
+    intros. unfold run_f. destruct (beh (ncalls x)) eqn:Eb; cbn; [| | | | | |exfalso; exact (no_restart _ Eb)].
     - rewrite ncalls_cb. reflexivity.
     - rewrite ncalls_eb. reflexivity.
     - reflexivity.
@@ -874,7 +859,7 @@ Section Counts2.
     let s := run beh wc init ops in
     (ncalls (step beh wc s (Advance a)) <= S (ncalls s))%nat.
   Proof.
-    intros wc ops a Hok s. destruct (reach_Inv beh wc ops Hok) as [_ Hp]. fold s in Hp.
+    intros wc ops a Hok s. destruct (reach_Inv beh no_restart wc ops Hok) as [_ Hp]. fold s in Hp.
     cbn [step]. unfold fire_due. cbn [set_now now pend].
     destruct Hp as [Hp|[Hp|Hp]].
     - destruct Hp as [_ [P2 _]]. rewrite P2. cbn. lia.
@@ -897,6 +882,19 @@ Lemma deferred_refuted : exists beh wc ops,
 Proof.
   exists restart_beh, false, restart_ops. vm_compute. repeat split; try lia; try discriminate; tauto.
 Qed.
+
+(** the second guard is needed as well: stop() + start(now=False) from inside f *)
+Definition inside_beh (k : nat) : fbeh := match k with 1%nat => FRestartRet | _ => FRet end.
+
+Lemma restart_inside_refuted :
+  let s1 := run inside_beh false init [Start 2 true; Advance 2] in
+  let s2 := run inside_beh false init [Start 2 true; Advance 2; Advance 2; Stop] in
+  let s3 := step inside_beh false s2 (Advance 2) in
+  map snd (pend s1) = [4; 4]                              (* two calls of the same loop are pending *)
+  /\ (running s2 = false /\ waiting s2 = [] /\ pend s2 <> []     (* the loop is over but a call is still scheduled *)
+      /\ ~ In 0%nat (done_gens (log s2)) /\ dcur s2 = None)         (* and the first start() Deferred never fired *)
+  /\ ncalls s3 = S (ncalls s2).                           (* f is called after stop() *)
+Proof. vm_compute. repeat split; try discriminate. intros [H|[]]. discriminate. Qed.
 
 (** a non-trivial guarded history: immediate first call, latency over two boundaries, multi-interval jump,
     stop from outside; counts 1, 1, 5 sum to the 7 boundaries 0,4,...,24 *)
